@@ -65,7 +65,7 @@ def evaluate(name, run_tests=True, thorough=False):
         envc = dict(os.environ, NXS_REPO=wt)
         for tier in (["quick", "thorough"] if thorough else ["quick"]):
             t0 = time.time()
-            rcc, oc = sh(["./check", pid, tier], cwd=vc, env=envc, timeout=3600)
+            rcc, oc = sh(["timeout", "900", "./check", pid, tier], cwd=vc, env=envc, timeout=1000)
             lines = [l for l in oc.splitlines() if l.startswith("VIOLATION") or l.startswith("KNOWN-FINDING") or l.startswith(f"[{pid}]")]
             res[tier] = {"exit": rcc, "wall_s": round(time.time() - t0, 1), "lines": [l[:400] for l in lines[:8]]}
             reps = []
